@@ -158,11 +158,12 @@ spec fn okb(b: bool) -> Result<Value, Error> { Ok(Value::Boolean(b)) }
         ensures
             ret is Ok ==> has_type(ret->Ok_0, Type::Boolean),
             rv(args@, 0, ctx) is Err ==> ret is Err,
-            rv(args@, 0, ctx) matches Ok(Value::Boolean(p)) ==> (
+            args@.len() < 2 ==> ret is Err,   // (rejected at load by the signature)
+            args@.len() >= 2 ==> (rv(args@, 0, ctx) matches Ok(Value::Boolean(p)) ==> (
                 if !p { ret == okb(false) } else {
                     &&& (rv(args@, 1, ctx) is Err ==> ret is Err)
                     &&& (rv(args@, 1, ctx) matches Ok(Value::Boolean(q)) ==> ret == okb(q))
-                }),
+                })),
 //@ end
 
 // ---------------------------------------------------------------- Or (second operand not evaluated when the first is true)
@@ -177,11 +178,12 @@ spec fn okb(b: bool) -> Result<Value, Error> { Ok(Value::Boolean(b)) }
         ensures
             ret is Ok ==> has_type(ret->Ok_0, Type::Boolean),
             rv(args@, 0, ctx) is Err ==> ret is Err,
-            rv(args@, 0, ctx) matches Ok(Value::Boolean(p)) ==> (
+            args@.len() < 2 ==> ret is Err,   // (rejected at load by the signature)
+            args@.len() >= 2 ==> (rv(args@, 0, ctx) matches Ok(Value::Boolean(p)) ==> (
                 if p { ret == okb(true) } else {
                     &&& (rv(args@, 1, ctx) is Err ==> ret is Err)
                     &&& (rv(args@, 1, ctx) matches Ok(Value::Boolean(q)) ==> ret == okb(q))
-                }),
+                })),
 //@ end
 
 // ---------------------------------------------------------------- Xor
@@ -196,5 +198,5 @@ spec fn okb(b: bool) -> Result<Value, Error> { Ok(Value::Boolean(b)) }
         ensures
             ret is Ok ==> has_type(ret->Ok_0, Type::Boolean),
             (rv(args@, 0, ctx) is Err || rv(args@, 1, ctx) is Err) ==> ret is Err,
-            (rv(args@, 0, ctx) matches Ok(Value::Boolean(p)) && rv(args@, 1, ctx) matches Ok(Value::Boolean(q))) ==> ret == okb(p != q),
+            rv(args@, 0, ctx) matches Ok(Value::Boolean(p)) ==> (rv(args@, 1, ctx) matches Ok(Value::Boolean(q)) ==> ret == okb(p != q)),
 //@ end
